@@ -91,22 +91,34 @@ class TempDir:
         shutil.rmtree(self.path, ignore_errors=True)
 
 
-def cost_args(costs):
+CLI_DEFAULT_COSTS = {"SPECIATION": 0, "DUPLICATION": 1, "HORIZONTAL_TRANSFER": 1, "FULL_LOSS": 1, "SEGMENTAL_LOSS": 1}
+
+
+def cost_args(costs, omit_defaults=False):
+    """--cost-* options for a cost vector; with omit_defaults the options whose value is the documented default
+    (spe 0, dup/hgt/floss/sloss 1) are left out, as a user would."""
     names = {"SPECIATION": "spe", "DUPLICATION": "dup", "HORIZONTAL_TRANSFER": "hgt", "FULL_LOSS": "floss", "SEGMENTAL_LOSS": "sloss"}
     args = []
     for key, opt in names.items():
         if key in costs:
             v = costs[key]
+            if omit_defaults and v == CLI_DEFAULT_COSTS[key]:
+                continue
             args += [f"--cost-{opt}", 'float("inf")' if v == float("inf") else str(v)]
     return args
 
 
-def cli_reconcile(case, algo, policy="any", with_costs=True, via_std=False, stale_output=False):
+def cli_reconcile(case, algo, policy="any", with_costs=True, via_std=False, stale_output=False, omit_default_flags=False,
+                  decoy_file_costs=False):
     """Write the case to a temp file (or feed it on stdin when via_std, reading the
     result from stdout: the documented defaults of --input/--output), run `reconcile`,
     return (status, [output lines], printed minimum cost or None, stderr, raw output)."""
     data = {k: v for k, v in case.items() if not k.startswith("_") and k != "costs"}
-    costs = cost_args(case["costs"]) if with_costs and "costs" in case else []
+    costs = cost_args(case["costs"], omit_defaults=omit_default_flags) if with_costs and "costs" in case else []
+    if decoy_file_costs:
+        # a cost vector inside the input file is not part of the documented interface of `reconcile` (costs come from the
+        # --cost-* options, defaults otherwise): whatever the file says, the options decide
+        data["costs"] = {"SPECIATION": 3, "DUPLICATION": 4, "HORIZONTAL_TRANSFER": 2, "FULL_LOSS": 5, "SEGMENTAL_LOSS": 2}
     if via_std:
         status, out, err = run_cli(["reconcile", "--solutions", policy] + costs + [algo], stdin_text=json.dumps(data))
         raw = out
